@@ -8,3 +8,9 @@ FACTORY_PARAM_BASES = {
         "(docstring: 'typically with Base Frame or RigidBody')",
     ),
 }
+
+# Subsystems that joints, contacts, forces and interactions are documented to accept (class docstrings:
+# "RigidBody or CosseratRod", Frame as prescribed-motion body, PointMass for spherical/two-point use).
+KINEMATIC_SUBSYSTEMS = ["Frame", "PointMass", "RigidBody", "CosseratRod"]
+# methods that are only required from subsystems having an orientation (`hasattr(subsystem, "A_IB")` idiom)
+ORIENTATION_METHODS = {"A_IB", "A_IB_q", "B_Omega", "B_Omega_q", "B_Psi", "B_Psi_q", "B_Psi_u", "B_J_R", "B_J_R_q"}
